@@ -8,6 +8,7 @@ Engine variants (`Engine` record = the finding switches): `interpAsIs`, `wazevoA
 import Wz.Model.Listener
 import Wz.Proofs.C20_Bracket
 import Wz.Proofs.C20_Project
+import Wz.Proofs.C20_Params
 
 namespace Wz.C20
 open Wz.Model.Listener
@@ -128,14 +129,27 @@ theorem subset_events_are_projection (E : Engine) (host : Nat → Bool) (S : Nat
     events E ⟨host, S⟩ fr = (events E ⟨host, fun _ => true⟩ fr).filter (fun e => S e.fn) :=
   (run_project E host S fr true []).1
 
+/-- `events_carry_actual_params_results`: for EVERY engine variant, listener assignment and forest, each `Before`
+in the stream carries the function and the arguments of a call node of the forest, and each `After` the function and
+the returned values of a node that returns: no event is invented, none carries another call's values. (Which node
+the values are compared with on the real engines is tie B: the reference evaluator.) -/
+theorem events_carry_actual_params_results (E : Engine) (C : Cfg) (fr : Forest) :
+    (∀ f a s, Event.before f a s ∈ events E C fr → (f, a) ∈ calls fr) ∧
+    (∀ f v, Event.after f v ∈ events E C fr → (f, Outcome.ret v) ∈ outs fr) :=
+  ⟨fun f a s h => run_isEventOf E C fr true [] (.before f a s) h,
+   fun f v h => run_isEventOf E C fr true [] (.after f v) h⟩
+
+/-- the statement is not vacuous: the stream of the tail-call sample has both kinds of event -/
+example : Event.before 2 [3] [2, 1] ∈ events repaired allOn tail12 ∧ Event.after 2 [10] ∈ events repaired allOn tail12 := by
+  decide
+
 /-
 Not proved here (left out for time; covered by ties B and C on the real code):
 * `stack_iterator_is_chain`: in the model the snapshot at a `Before` is `snapshot E (f :: st)` where `st` is the chain of the
   enclosing calls of the same call engine, all frames with or without listener, by construction of `run`;
   `subset_events_are_projection` shows it does not depend on the listener set, `wazevo_stack_truncated_witness` shows the
   as-is compiler truncates it (F30). The harness monitor `chainMonitor` checks it against the open-call stack of the real stream.
-* `params_results_actual`: `Before`/`After` carry the `args`/`vals` of their node by construction of `run`; the real values are
-  compared with the reference evaluator's through the model (tie B).
+* (`params_results_actual` is now `events_carry_actual_params_results` above.)
 * `engines_same_events`: the as-is variants differ only in `beforeAtOverflow/overflowPanics/tail*/stackCap`; equality of the two
   real engines' streams is checked directly by the harness (`C20:engines-differ`).
 -/
